@@ -237,5 +237,104 @@ UNITS.append(Unit('convolve', 'C15', CONV_C, extracts=X_CONV, replay=REPLAY_CONV
                   assumed=['std::reverse(begin, end) reverses the coefficients; the kernel copy constructor copies size, centre and coefficients',
                            'correlate_rows / correlate_cols with a kernel are the sums the row contract of unit rows describes']))
 
+# ---------------------------------------------------------------------------------------------------------------------------------------
+# detail::convolve_2d_impl (2-D convolution, zero boundary): four nested loops under loop contracts.
+# Ghost: one arbitrary destination pixel (g_dc, g_dr) and one arbitrary kernel cell (loop indices g_kr, g_kc).  Every product that enters the
+# sum is  src(x + cx - i, y + cy - j) * kernel(i, j)  (the textbook convolution anchored at the kernel centre), the ghost cell contributes
+# exactly once when that source position lies inside the image and not at all otherwise (zero extension), every source read / kernel read /
+# destination write is inside its range, every destination pixel is written exactly once.
+CV = 'boost/gil/image_processing/convolve.hpp'
+X_C2 = [X('convolve_2d_impl', CV, r'void convolve_2d_impl\(SrcView const& src_view, DstView const& dst_view, Kernel const& kernel\)\s*\{', count=1,
+          rules=[('R11.h', r'src_view\.height\(\)', 'src_view->h', True), ('R11.w', r'src_view\.width\(\)', 'src_view->w', True),
+                 ('R11.ksize', r'kernel\.size\(\)', 'kernel->size', True),
+                 ('R11.kcy', r'kernel\.center_y\(\)', 'kernel->cy', False), ('R11.kcx', r'kernel\.center_x\(\)', 'kernel->cx', False),
+                 ('R11.kup', r'kernel\.upper_size\(\)', 'kernel->cy', False), ('R11.kleft', r'kernel\.left_size\(\)', 'kernel->cx', False),
+                 ('R11.klow', r'kernel\.lower_size\(\)', '(kernel->size - kernel->cy - 1)', False), ('R11.kright', r'kernel\.right_size\(\)', '(kernel->size - kernel->cx - 1)', False),
+                 ('R11.tap', r'src_view\(([^()]+), ([^()]+)\)\[0\]\s*\*\s*kernel\.at\(([^()]+), ([^()]+)\)', r'TAP(src_view, kernel, \1, \2, \3, \4, view_col, view_row)', True),
+                 ('R11.write', r'dst_view\(([^()]+), ([^()]+)\) = aux_total;', r'VIEW_WRITE(dst_view, \1, \2);', True),
+                 ('R9.scast', r'static_cast<std::ptrdiff_t>\(', '(ptrdiff_t)(', False),
+                 ('L1', r'for \(std::ptrdiff_t view_row = 0;.*?\+\+view_row\)', lambda m: m.group(0) + '\nLOOP_ROWS', True),
+                 ('L2', r'for \(std::ptrdiff_t view_col = 0;.*?\+\+view_col\)', lambda m: m.group(0) + '\nLOOP_COLS', True),
+                 ('L3', r'for \(std::size_t kernel_row = 0;.*?\+\+kernel_row\)', lambda m: m.group(0) + '\nLOOP_KROWS', True),
+                 ('L4', r'for \(std::size_t kernel_col = 0;.*?\+\+kernel_col\)', lambda m: m.group(0) + '\nLOOP_KCOLS', True)])]
+C2_C = r"""
+typedef struct { ptrdiff_t w, h; } view_t; typedef struct { size_t size; size_t cx, cy; } kernel_t;
+#define HMAX ((ptrdiff_t)100000)
+#define KMAX ((size_t)1000)
+size_t g_kr, g_kc, g_ksize, g_cx, g_cy; ptrdiff_t g_dr, g_dc; int g_hits, g_writes;
+#define G_FR ((ptrdiff_t)(g_ksize - 1 - g_kr))
+#define G_FC ((ptrdiff_t)(g_ksize - 1 - g_kc))
+#define GHOST_SRC_ROW (g_dr + ((ptrdiff_t)g_cy - G_FR))
+#define GHOST_SRC_COL (g_dc + ((ptrdiff_t)g_cx - G_FC))
+static float TAP(const view_t* v, const kernel_t* k, ptrdiff_t x, ptrdiff_t y, ptrdiff_t kc, ptrdiff_t kr, ptrdiff_t vc, ptrdiff_t vr) {
+  __CPROVER_assert(0 <= x && x < v->w && 0 <= y && y < v->h, "ACCESS: source read inside the source view");
+  __CPROVER_assert(0 <= kr && kr < (ptrdiff_t)k->size && 0 <= kc && kc < (ptrdiff_t)k->size, "ACCESS: kernel index inside the kernel");
+  __CPROVER_assert(x == vc + (ptrdiff_t)k->cx - kc && y == vr + (ptrdiff_t)k->cy - kr, "the product entering dst(x,y) is src(x + cx - i, y + cy - j) * kernel(i, j): convolution anchored at the kernel centre");
+  if (vc == g_dc && vr == g_dr && kr == G_FR && kc == G_FC) g_hits = g_hits + 1;
+  float r; return r; }
+static void VIEW_WRITE(const view_t* v, ptrdiff_t x, ptrdiff_t y) {
+  __CPROVER_assert(0 <= x && x < v->w && 0 <= y && y < v->h, "ACCESS: destination write inside the destination view");
+  if (x == g_dc && y == g_dr) g_writes = g_writes + 1; }
+#define AT_GHOST (view_row == g_dr && view_col == g_dc)
+#define GHOST_IN (0 <= GHOST_SRC_ROW && GHOST_SRC_ROW < src_view->h && 0 <= GHOST_SRC_COL && GHOST_SRC_COL < src_view->w)
+#define DONE_ROWS (view_row > g_dr)
+#define DONE_PIX (view_row > g_dr || (view_row == g_dr && view_col > g_dc))
+#define HITS(done) ((GHOST_IN && (done)) ? 1 : 0)
+#define LOOP_ROWS __CPROVER_assigns(view_row, flip_ker_row, flip_ker_col, row_boundary, col_boundary, aux_total, g_hits, g_writes) \
+  __CPROVER_loop_invariant(0 <= view_row && view_row <= src_view->h) \
+  __CPROVER_loop_invariant(g_writes == (DONE_ROWS ? 1 : 0) && g_hits == HITS(DONE_ROWS)) \
+  __CPROVER_decreases(src_view->h - view_row)
+#define LOOP_COLS __CPROVER_assigns(view_col, flip_ker_row, flip_ker_col, row_boundary, col_boundary, aux_total, g_hits, g_writes) \
+  __CPROVER_loop_invariant(0 <= view_col && view_col <= src_view->w) \
+  __CPROVER_loop_invariant(g_writes == (DONE_PIX ? 1 : 0) && g_hits == HITS(DONE_PIX)) \
+  __CPROVER_decreases(src_view->w - view_col)
+#define LOOP_KROWS __CPROVER_assigns(kernel_row, flip_ker_row, flip_ker_col, row_boundary, col_boundary, aux_total, g_hits) \
+  __CPROVER_loop_invariant(kernel_row <= kernel->size) \
+  __CPROVER_loop_invariant(g_hits == HITS(DONE_PIX || (AT_GHOST && kernel_row > g_kr))) \
+  __CPROVER_decreases(kernel->size - kernel_row)
+#define LOOP_KCOLS __CPROVER_assigns(kernel_col, flip_ker_col, row_boundary, col_boundary, aux_total, g_hits) \
+  __CPROVER_loop_invariant(kernel_col <= kernel->size) \
+  __CPROVER_loop_invariant(g_hits == HITS(DONE_PIX || (AT_GHOST && (kernel_row > g_kr || (kernel_row == g_kr && kernel_col > g_kc))))) \
+  __CPROVER_decreases(kernel->size - kernel_col)
+void convolve_2d_impl(const view_t* src_view, const view_t* dst_view, const kernel_t* kernel)
+__CPROVER_requires(__CPROVER_is_fresh(src_view, sizeof(*src_view)) && __CPROVER_is_fresh(dst_view, sizeof(*dst_view)) && __CPROVER_is_fresh(kernel, sizeof(*kernel)))
+__CPROVER_requires(0 <= src_view->w && src_view->w <= HMAX && 0 <= src_view->h && src_view->h <= HMAX && dst_view->w == src_view->w && dst_view->h == src_view->h)
+__CPROVER_requires(1 <= kernel->size && kernel->size <= KMAX && kernel->cx < kernel->size && kernel->cy < kernel->size)
+__CPROVER_requires(g_ksize == kernel->size && g_cx == kernel->cx && g_cy == kernel->cy && g_kr < g_ksize && g_kc < g_ksize && 0 <= g_dr && g_dr < src_view->h && 0 <= g_dc && g_dc < src_view->w)
+__CPROVER_requires(g_hits == 0 && g_writes == 0)
+__CPROVER_assigns(g_hits, g_writes)
+__CPROVER_ensures(g_writes == 1)                                   /* every destination pixel is written exactly once */
+__CPROVER_ensures(g_hits == (GHOST_IN ? 1 : 0))                     /* every kernel cell contributes once when its source sample is inside the image, never otherwise (zero extension) */
+@@convolve_2d_impl@@
+#ifndef VERIF_NATIVE
+void h_c2(void){ view_t* s; view_t* d; kernel_t* k; convolve_2d_impl(s, d, k); __CPROVER_assert(0, "VACUITY"); }
+#endif
+"""
+REPLAY_C2 = r"""
+#include <boost/gil.hpp>
+#include <boost/gil/image_processing/convolve.hpp>
+#include <boost/gil/image_processing/kernel.hpp>
+#include <vector>
+#include <cmath>
+#include "vreplay.hpp"
+using namespace boost::gil;
+int main(int argc, char** argv){ vr::parse(argc, argv); long bad = 0, cases = 0;
+  for (int W = 1; W <= 4; W++) for (int H = 1; H <= 4; H++) for (int K = 1; K <= 3; K++) for (int cy = 0; cy < K; cy++) for (int cx = 0; cx < K; cx++) {
+    gray32f_image_t src(W, H), dst(W, H); std::vector<float> kv(K * K); for (int i = 0; i < K * K; i++) kv[i] = (float)(1 + (i * 7) % 5) * ((i & 1) ? -1.f : 1.f);
+    for (int y = 0; y < H; y++) for (int x = 0; x < W; x++) view(src)(x, y)[0] = (float)(1 + ((x * 3 + y * 5) % 11));
+    detail::kernel_2d<float> k(kv.begin(), kv.size(), cy, cx);
+    detail::convolve_2d(const_view(src), k, view(dst)); cases++;
+    for (int y = 0; y < H; y++) for (int x = 0; x < W; x++) { double want = 0;
+      for (int j = 0; j < K; j++) for (int i = 0; i < K; i++) { int sx = x + cx - i, sy = y + cy - j; if (sx >= 0 && sx < W && sy >= 0 && sy < H) want += (double)view(src)(sx, sy)[0] * k.at(i, j); }
+      if (std::fabs((double)view(dst)(x, y)[0] - want) > 1e-3) { if (!bad) std::printf("image %dx%d kernel %dx%d centre (x=%d,y=%d): dst(%d,%d) = %g, expected %g\n", W, H, K, K, cx, cy, x, y, (double)view(dst)(x, y)[0], want); bad++; } } }
+  if (bad) REPRODUCED("%ld pixels of %ld convolve_2d cases differ from the textbook sum", bad, cases);
+  NOT_REPRODUCED("convolve_2d equals the textbook sum on all small images / kernels / centres"); }
+"""
+UNITS.append(Unit('convolve_2d', 'C15', C2_C, extracts=X_C2, replay=REPLAY_C2,
+                  checks=[Check('convolve_2d_impl', 'h_c2', enforce='convolve_2d_impl', loops=True, object_bits=12, timeout=1500, inputs=())],
+                  preconditions=['views up to 10^5 x 10^5, square kernel up to 1000 x 1000 with its centre inside'],
+                  assumed=['src_view(x, y)[0] / dst_view(x, y) = pixel access with the ACCESS precondition (ghost TAP / VIEW_WRITE); kernel.at(x, y), size, center_x / center_y, upper / left / lower / right size of detail::kernel_2d',
+                           'the floating-point sum itself is not modelled (each product is an arbitrary float); convolve_2d dispatches to convolve_2d_impl per channel (nth_channel_view)']))
+
 META = dict(not_covered=['the numerical identity dst(i) = sum_k src(i+k-centre) * kernel(k) and convolution = correlation with the reversed kernel (quantified sums over pixel arithmetic)',
                          'correlate_cols loop, convolve_2d, fixed-size kernel variants, extend_boundary: not built'])
